@@ -349,6 +349,7 @@ func (e *Evaluator) evalAssignment(assignment *parser.AssignmentStmt) error {
 	if err != nil {
 		return err
 	}
+	val = copyOrRef(val)
 	switch n := assignment.Target.(type) {
 	case *parser.Var:
 		e.scope.update(n.Name, val)
